@@ -1,4 +1,4 @@
-/- C14 — property theorems.  Stub. -/
+/- C14 — property theorems (work in progress). -/
 import CBV.Model.C14
 
 namespace CBV.C14
